@@ -283,6 +283,7 @@ def catalogue():
                      FUNCTION(["g"], [], False, BLOCK(last=RET(VA)), method="m")],
         "localfn": [LOCALFN("g"), LOCALFN("g", ["a", "b"], True, one), LOCALFN("g", [], True, BLOCK(last=RET(VA)))],
         "local": [LOCAL(["a"]), LOCAL(["a", "b", "c"]), LOCAL(["a"], [NUM(1)]), LOCAL(["a", "b"], [NUM(1), NUM(2)]), LOCAL(["a"], [NUM(1), NUM(2)]), LOCAL(["a", "b"], [CALL(f)])],
+        "const": [["localc", ["a"], [NUM(1)]], ["localc", ["a", "b"], [STR("s"), FLD(a, "b")]], ["localc", ["a"], [CALL(f)]]],
         "assign": [ASSIGN([a], [NUM(1)]), ASSIGN([a, b], [b, a]), ASSIGN([FLD(a, "b"), IDX(a, NUM(1)), c], [NUM(1), NUM(2), NUM(3)]), ASSIGN([a], [NUM(1), NUM(2)])],
         "compound": [COMPOUND(op, a, b) for op in COMPOUND_OPS] + [COMPOUND(op, FLD(a, "b"), UN("-", b)) for op in COMPOUND_OPS] + [COMPOUND(op, IDX(a, b), NUM(1)) for op in COMPOUND_OPS],
         "callstmt": [CALLSTMT(CALL(f)), CALLSTMT(MCALL(a, "m", ARGS(x))), CALLSTMT(CALL(f, SARG("s"))), CALLSTMT(CALL(f, TARG(NAMED("k", NUM(1)))))],
